@@ -597,7 +597,7 @@ func lexInsideTag(l *lexer) stateFn {
 		l.emit(arithmeticItemsBySymbol[string(r)])
 	case r == '>', r == '!', r == '<', r == '=' && l.peek() == '=':
 		// 1 or 2 character symbols
-		l.accept("*/%+-=!<>|&?:")
+		l.accept("=")
 		sym := l.input[l.start:l.pos]
 		item, ok := arithmeticItemsBySymbol[sym]
 		if !ok {
